@@ -24,10 +24,30 @@
 (* Named planner mutants (constant Mutant) must violate Sound.             *)
 (*                                                                         *)
 (* Statement model: sharded fact table t(k, v), replicated dimension       *)
-(* d(k2, w).  f = [fam, src, sub, wrap, wh, proj, selform, grp, grpform,   *)
-(* aggs, hav, selx, ord, ordform, desc, lim, off] - see FeatSpace.         *)
-(* LIMIT/OFFSET are u64 in the code; here they live in 0..U-1 with U = 8   *)
-(* and the value U-1 stands for u64::MAX (wrapping addition is modelled).  *)
+(* d(k2, w).  Feature record f:                                            *)
+(*   fam     plain | agg (aggregates / GROUP BY present)                    *)
+(*   src     FROM shape: t | t JOIN d (tjd) | CROSS (txd) | t LEFT d (tld)  *)
+(*           | d LEFT t (dlt) | t RIGHT d (trd) | FULL (tfd) | self join    *)
+(*           | derived table: plain (der), filtered (derw), aggregated      *)
+(*           (dera), LIMITed (derl), DISTINCT (derd)                        *)
+(*   sub     WHERE subquery: scalar over d / t (sd, st), IN over d / t      *)
+(*           (ind, int), correlated EXISTS over d (exd)                     *)
+(*   wrap    cte | union | distinct | window                                *)
+(*   wh      a plain filter;  proj / selform: select list (k,v | v) written *)
+(*           as names, aliases, qualified names or *                        *)
+(*   grp, grpform  GROUP BY k written as the column, an ordinal, or an      *)
+(*           alias that SHADOWS the column (SELECT k * 0 AS k .. GROUP BY k)*)
+(*   aggs    the select list's aggregates [fn, dist, arg]; selx: items are  *)
+(*           the aggregates, agg + 1, or agg1 + agg2                        *)
+(*   hav     HAVING COUNT(*) >= 2 | SUM(v) >= 2 | k >= 1 | <alias> >= 2      *)
+(*   ord, ordform, desc   ORDER BY key(s), written as output name, ordinal, *)
+(*           qualified name, expression, or a column not in the select list *)
+(*   lim, off   LIMIT / OFFSET.  They are u64 in the code; here they live   *)
+(*           in 0..U-1 with U = 8, U-1 stands for u64::MAX and addition     *)
+(*           wraps modulo U as u64 addition wraps modulo 2^64.              *)
+(* Open findings of the unchanged planner are the shapes KnownShape names  *)
+(* (C09/distplan-*): excluded from Space = "sound", and each explored by   *)
+(* its own DistPlan_asbuilt_*.cfg, which TLC must reject.                  *)
 (***************************************************************************)
 EXTENDS SqlSem, Json
 
